@@ -72,6 +72,23 @@ func threadedSucc(pred, b *ssa.BasicBlock) int {
 	return 1
 }
 
+// condRemoved: edges that count as removed only when their From block was entered from one of the listed predecessors
+// (a pass edge of a test on a phi that merges the check's result with other values: the test is a test of the check only
+// on the paths that come in over the check's own incoming edge). Set by RunGate for the duration of one gate decision.
+var condRemoved map[Edge]map[*ssa.BasicBlock]bool
+
+func condMask(pred, b *ssa.BasicBlock, mask int) int {
+	if condRemoved == nil || pred == nil {
+		return mask
+	}
+	for j := range b.Succs {
+		if m := condRemoved[Edge{b, j}]; m != nil && m[pred] {
+			mask &^= 1 << uint(j)
+		}
+	}
+	return mask
+}
+
 func reachFrom(start, startPred *ssa.BasicBlock, removed EdgeSet, blocked map[*ssa.BasicBlock]bool) map[*ssa.BasicBlock]bool {
 	seen := map[*ssa.BasicBlock]bool{start: true}
 	allowed := map[*ssa.BasicBlock]int{} // bit i: successor i may be followed
@@ -81,6 +98,7 @@ func reachFrom(start, startPred *ssa.BasicBlock, removed EdgeSet, blocked map[*s
 	} else {
 		allowed[start] = all(start)
 	}
+	allowed[start] = condMask(startPred, start, allowed[start])
 	work := []*ssa.BasicBlock{start}
 	for len(work) > 0 {
 		b := work[len(work)-1]
@@ -93,6 +111,7 @@ func reachFrom(start, startPred *ssa.BasicBlock, removed EdgeSet, blocked map[*s
 			if t := threadedSucc(b, s); t >= 0 {
 				mask = 1 << uint(t)
 			}
+			mask = condMask(b, s, mask)
 			if !seen[s] || allowed[s]|mask != allowed[s] {
 				seen[s] = true
 				allowed[s] |= mask
@@ -533,4 +552,144 @@ func FactHoldsValue(b *ssa.BasicBlock, sel func(ssa.Value) bool, want bool) bool
 		}
 	}
 	return false
+}
+
+// LoopCarried reports whether the value v, used in block at, can be a value computed in an EARLIER iteration of a loop
+// that encloses at: its value flow (phi edges, loads of local variables and their stores, field/element selections of a
+// base, conversions, tuple components — not index computations, not call results) reaches a phi in the header of an
+// enclosing loop, or a variable declared outside the loop that is assigned inside it without a reset that dominates the
+// use. Accumulators (whose new value is computed from the old one) are carried by design; the caller decides whether
+// carrying is legitimate for the value at hand.
+func LoopCarried(v ssa.Value, at *ssa.BasicBlock) (bool, string) {
+	fn := at.Parent()
+	var enclosing []*Loop
+	for _, l := range Loops(fn) {
+		if l.Body[at] {
+			enclosing = append(enclosing, l)
+		}
+	}
+	if len(enclosing) == 0 {
+		return false, ""
+	}
+	seen := map[ssa.Value]bool{}
+	var why string
+	var rec func(v ssa.Value, depth int) bool
+	rec = func(v ssa.Value, depth int) bool {
+		if v == nil || depth > 12 || seen[v] {
+			return false
+		}
+		seen[v] = true
+		switch x := v.(type) {
+		case *ssa.Phi:
+			for _, l := range enclosing {
+				if x.Block() == l.Header {
+					why = "it flows from the loop-header variable " + x.Comment + " (" + x.Name() + "), i.e. from the previous iteration"
+					return true
+				}
+			}
+			for _, e := range x.Edges {
+				if rec(e, depth+1) {
+					return true
+				}
+			}
+		case *ssa.UnOp:
+			if x.Op != token.MUL {
+				return rec(x.X, depth+1)
+			}
+			if a, ok := x.X.(*ssa.Alloc); ok {
+				for _, l := range enclosing {
+					if l.Body[a.Block()] {
+						continue
+					}
+					// declared outside this loop: carried if assigned inside it, unless a store inside the loop dominates the load
+					assigned, reset := false, false
+					for _, st := range storesTo(a) {
+						if l.Body[st.Block()] {
+							assigned = true
+							if InstrDominates(st, x) {
+								reset = true
+							}
+						}
+					}
+					if assigned && !reset {
+						why = "it is read from the variable " + a.Comment + ", declared outside the loop and assigned inside it"
+						return true
+					}
+				}
+				for _, st := range storesTo(a) {
+					if rec(st.Val, depth+1) {
+						return true
+					}
+				}
+				return false
+			}
+			return rec(x.X, depth+1)
+		case *ssa.FieldAddr:
+			return rec(x.X, depth+1)
+		case *ssa.Field:
+			return rec(x.X, depth+1)
+		case *ssa.IndexAddr:
+			return rec(x.X, depth+1)
+		case *ssa.Index:
+			return rec(x.X, depth+1)
+		case *ssa.Extract:
+			return rec(x.Tuple, depth+1)
+		case *ssa.TypeAssert:
+			return rec(x.X, depth+1)
+		case *ssa.ChangeType:
+			return rec(x.X, depth+1)
+		case *ssa.Convert:
+			return rec(x.X, depth+1)
+		case *ssa.ChangeInterface:
+			return rec(x.X, depth+1)
+		case *ssa.MakeInterface:
+			return rec(x.X, depth+1)
+		case *ssa.Slice:
+			return rec(x.X, depth+1)
+		}
+		return false
+	}
+	return rec(v, 0), why
+}
+
+// FreshPerIterationV matches a call argument that cannot be left over from an earlier iteration of a loop enclosing the call.
+func FreshPerIterationV(at func() *ssa.BasicBlock) VPat {
+	return VPat{"a value of the current loop iteration (not carried over from an earlier one)", func(v ssa.Value) bool {
+		b := at()
+		if b == nil {
+			return true
+		}
+		carried, _ := LoopCarried(v, b)
+		return !carried
+	}}
+}
+
+// FreeVarBinding: the value bound to the free variable fv where its closure is created (the captured variable's cell).
+func FreeVarBinding(fv *ssa.FreeVar) ssa.Value {
+	fn := fv.Parent()
+	idx := -1
+	for i, x := range fn.FreeVars {
+		if x == fv {
+			idx = i
+		}
+	}
+	if idx < 0 || fn.Parent() == nil {
+		return nil
+	}
+	for _, pf := range WithAnons(Outer(fn)) {
+		for _, b := range pf.Blocks {
+			for _, in := range b.Instrs {
+				if mc, ok := in.(*ssa.MakeClosure); ok && mc.Fn == fn && idx < len(mc.Bindings) {
+					v := mc.Bindings[idx]
+					if inner, ok := v.(*ssa.FreeVar); ok {
+						if b := FreeVarBinding(inner); b != nil {
+							return b
+						}
+					}
+					return v
+				}
+			}
+		}
+	}
+	return nil
 }
